@@ -68,14 +68,17 @@ def plane3_params(pts):
     # thinner and as the points get farther from the origin
     size = max(np.linalg.norm(p) for p in (p1, p2, p3))
     l12, l13 = np.linalg.norm(p2 - p1), np.linalg.norm(p3 - p1)
-    eps = 1e-13 * max(1.0, (l12 * l13 + size * (l12 + l13)) / length)
+    # (three units of the last place per unit of conditioning: well above
+    # the rounding error, which stays below one, and well below anything a
+    # card can mean by a number that is not zero)
+    eps = 3e-16 * max(1.0, (l12 * l13 + size * (l12 + l13)) / length)
     deps = eps * max(1.0, size)
     flip = False
-    if abs(dval) > max(deps, 1e-12):
+    if abs(dval) > max(deps, 1e-14):
         flip = dval < 0           # origin must give A*0+..-D < 0  => D > 0
-    elif abs(nrm[2]) > max(eps, 1e-12):
+    elif abs(nrm[2]) > max(eps, 1e-14):
         flip = nrm[2] < 0
-    elif abs(nrm[1]) > max(eps, 1e-12):
+    elif abs(nrm[1]) > max(eps, 1e-14):
         flip = nrm[1] < 0
     else:
         flip = nrm[0] < 0
